@@ -140,12 +140,14 @@ def discharge(obligations, timeout_ms=20000, tactic=None, retry_ms=None, use_cvc
             if r == "unsat":
                 results.append(Result(ob.name, "proved", "z3", t_acc, None, "", ob))
                 continue
-        r, model, t, reason = ex.submit(_solve, txt, timeout_ms, tac, True).result()
+        # a candidate counter-model already exists: the full query (with quantified axioms) gets a short budget
+        r, model, t, reason = ex.submit(_solve, txt, min(timeout_ms, 10000) if model1 is not None else timeout_ms,
+                                        tac, True).result()
         t += t_acc
         if model is None:
             model = model1
         backend = "z3"
-        if r in ("unknown", "error") and use_cvc5:
+        if r in ("unknown", "error") and use_cvc5 and model1 is None:
             r2, _, t2, reason2 = _cvc5(txt, retry_ms or timeout_ms * 3)
             if r2 in ("sat", "unsat"):
                 r, backend, t, reason = r2, "cvc5", t + t2, reason2
